@@ -101,3 +101,11 @@ def choice_read_reselects():
     except Exception as e:
         name, isv = repr(e), False
     return not (name == 's' and isv), "CHOICE with s selected, after reading c['i']: selected = %s, isValue = %r" % (name, isv)
+
+
+def union_operand_supertype():
+    from pyasn1.type import constraint as C
+    a = C.SingleValueConstraint(5)
+    u = C.ConstraintsUnion(a, C.ValueRangeConstraint(1, 3))
+    return bool(a.isSuperTypeOf(u)), 'SingleValueConstraint(5).isSuperTypeOf(ConstraintsUnion(SingleValueConstraint(5), ' \
+                                     'ValueRangeConstraint(1, 3))) = %r; the union admits 2' % a.isSuperTypeOf(u)
